@@ -189,6 +189,16 @@ Theorem C03_mesh_support_shortcuts_partial : forall fuel (T : Pose R) vs conn sh
 Proof. exact mesh_support_shortcuts_partial. Qed.
 Print Assumptions C03_mesh_support_shortcuts_partial.
 
+(** FULL correctness where the hypothesis can be discharged: if every vertex lists every other vertex
+    (tetrahedra; neighbourly polytopes) the answer is a point of the hull and maximal up to 10*eps,
+    whatever the cached start vertex and the shortcuts are *)
+Theorem C03_mesh_support_complete_adjacency : forall fuel (T : Pose R) vs conn shortcuts first_idx (d : V3R) idx p,
+  conn_complete vs conn ->
+  mesh_query fuel T vs conn shortcuts first_idx d = Some (idx, p) ->
+  hull_set T vs p /\ forall x, hull_set T vs x -> dot x d <= dot p d + @EPSILON10 R ROps.
+Proof. exact mesh_support_complete. Qed.
+Print Assumptions C03_mesh_support_complete_adjacency.
+
 (** "the answer does not depend on earlier queries": two different cached start vertices
     give support values that differ by at most [delta] (same hypothesis as above) *)
 Theorem C03_mesh_history_independent_partial :
@@ -382,6 +392,29 @@ Print Assumptions C03_membership_cert_sound.
        harness/narrow.py from the columns of the pose scaled by the sizes. *)
 From D3 Require Checker.ShapesBridge.
 Import Checker.Shapes Checker.ShapesBridge.
+(** ** per-mesh certificate for the hypothesis of the mesh theorem (Checker/ShapesMeshCone.v).
+       [cone_cert vs conn cert M] checks, in exact rational arithmetic, that every vertex u lies in the cone
+       spanned at every vertex v of the adjacency by the edges to v's neighbours, with coefficient sum <= M.
+       For an accepted certificate [LocalMaxGlobal] holds for EVERY direction with delta = M*10*eps, so the
+       hill-climbing answer is a global maximiser up to M*10*eps for every direction and every cached start
+       vertex: for that mesh nothing is left as a hypothesis.  The check builds and submits such a certificate
+       for the generated meshes (it exists for the edge graph of a convex polytope; it does not exist when a
+       vertex lies in the interior of a flat face, where [LocalMaxGlobalS] is evaluated instead). *)
+From D3 Require Checker.ShapesMeshCone.
+Theorem C03_mesh_cone_cert_sound (vs : list VQ) conn cert M :
+  ShapesMeshCone.cone_cert vs conn cert M = true ->
+  forall d : V3R, LocalMaxGlobal d (map v2r vs) conn (Q2R M * @EPSILON10 R ROps).
+Proof. exact (ShapesMeshCone.cone_cert_sound vs conn cert M). Qed.
+Print Assumptions C03_mesh_cone_cert_sound.
+
+Theorem C03_mesh_support_certified : forall (vs : list VQ) conn cert M fuel (T : Pose R) shortcuts first_idx (d : V3R) idx p,
+  ShapesMeshCone.cone_cert vs conn cert M = true ->
+  mesh_query fuel T (map v2r vs) conn shortcuts first_idx d = Some (idx, p) ->
+  hull_set T (map v2r vs) p /\
+  forall x, hull_set T (map v2r vs) x -> dot x d <= dot p d + Q2R M * @EPSILON10 R ROps.
+Proof. exact ShapesMeshCone.mesh_support_certified. Qed.
+Print Assumptions C03_mesh_support_certified.
+
 Theorem C03_expr_box (c u v w : VQ) (x : V3R) :
   sem (Sum (Pt c) (Sum (Seg u) (Sum (Seg v) (Seg w)))) x <-> image (frame c u v w) (box_K (V 1 1 1)) x.
 Proof. exact (bridge_box c u v w x). Qed.
